@@ -11,7 +11,8 @@
    4^d resp. 2^d results, exact partition of the voxel's region (Voxel.inR), pairwise disjointness; soundness of the run-time checkers. *)
 From Coq Require Import ZArith String Ascii List Bool Lia Permutation DecimalString Decimal Reals Sorting.Mergesort Orders Sorted.
 From Flocq Require Import Core.
-From SID Require Import Base Str Ids Voxel ZoomCore.
+From SIDGen Require Generated.
+From SID Require Import Base Str Ids Voxel ZoomCore GenEqConst.
 Import ListNotations.
 Open Scope Z_scope.
 
@@ -1090,7 +1091,9 @@ Qed.
 
 (* ---- the setters of the object: SetX / SetY / SetZ / SetZoom (and ResetExtendedSpatialID) applied to one object as a script;
         each writes exactly its own field(s) ---- *)
-Inductive setter := SX (x : Z) | SY (y : Z) | SZ (z : Z) | SZoom (h v : Z) | SReset (s : string).
+(* SNew s: the script continues on the object returned by NewExtendedSpatialID(s) — a FRESH object per call (the zero object, with an
+   error, when s is malformed) *)
+Inductive setter := SX (x : Z) | SY (y : Z) | SZ (z : Z) | SZoom (h v : Z) | SReset (s : string) | SNew (s : string).
 Definition apply_setter (st : eid) (c : setter) : eid :=
   match c with
   | SX x => {| eh := eh st; ex := x; ey := ey st; ev := ev st; ef := ef st |}
@@ -1098,8 +1101,10 @@ Definition apply_setter (st : eid) (c : setter) : eid :=
   | SZ z => {| eh := eh st; ex := ex st; ey := ey st; ev := ev st; ef := z |}
   | SZoom h v => {| eh := h; ex := ex st; ey := ey st; ev := v; ef := ef st |}
   | SReset s => match parse_eid s with Some i => i | None => st end
+  | SNew s => match parse_eid s with Some i => i | None => zero_eid end
   end.
-Definition setter_err (c : setter) : bool := match c with SReset s => match parse_eid s with Some _ => false | None => true end | _ => false end.
+Definition setter_err (c : setter) : bool :=
+  match c with SReset s | SNew s => match parse_eid s with Some _ => false | None => true end | _ => false end.
 Fixpoint run_setters (st : eid) (l : list setter) : list (bool * eid) :=
   match l with [] => [] | c :: r => let st' := apply_setter st c in (setter_err c, st') :: run_setters st' r end.
 
@@ -1109,10 +1114,26 @@ Theorem setter_fields st x y z h v :
   apply_setter st (SZ z) = mk (eh st) (ex st) (ey st) (ev st) z /\ apply_setter st (SZoom h v) = mk h (ex st) (ey st) v (ef st).
 Proof. repeat split. Qed.
 (* setters of distinct fields commute *)
-Definition setter_field (c : setter) : nat := match c with SX _ => 1 | SY _ => 2 | SZ _ => 3 | SZoom _ _ => 0 | SReset _ => 4 end%nat.
-Theorem setters_commute st c d : setter_field c <> 4%nat -> setter_field d <> 4%nat -> setter_field c <> setter_field d ->
+Definition setter_field (c : setter) : nat := match c with SX _ => 1 | SY _ => 2 | SZ _ => 3 | SZoom _ _ => 0 | SReset _ => 4 | SNew _ => 5 end%nat.
+Theorem setters_commute st c d : (setter_field c < 4)%nat -> (setter_field d < 4)%nat -> setter_field c <> setter_field d ->
   apply_setter (apply_setter st c) d = apply_setter (apply_setter st d) c.
-Proof. destruct c, d; cbn; intros; try reflexivity; congruence. Qed.
+Proof. destruct c, d; cbn; intros; try reflexivity; try congruence; lia. Qed.
+(* get-set and frame laws of the record model: a getter after its own setter returns the value set; every other getter is unchanged *)
+Theorem get_set_frame st x y z h v :
+  let gx := apply_setter st (SX x) in let gy := apply_setter st (SY y) in let gz := apply_setter st (SZ z) in let gm := apply_setter st (SZoom h v) in
+  (ex gx = x /\ eh gx = eh st /\ ey gx = ey st /\ ev gx = ev st /\ ef gx = ef st) /\
+  (ey gy = y /\ eh gy = eh st /\ ex gy = ex st /\ ev gy = ev st /\ ef gy = ef st) /\
+  (ef gz = z /\ eh gz = eh st /\ ex gz = ex st /\ ey gz = ey st /\ ev gz = ev st) /\
+  (eh gm = h /\ ev gm = v /\ ex gm = ex st /\ ey gm = ey st /\ ef gm = ef st).
+Proof. cbv zeta. cbn. repeat split. Qed.
+(* the record after step k of a script is the fold of the first k+1 commands: the printer after setters is the printer of that record *)
+Theorem state_after_script st l k o : nth_error (run_setters st l) k = Some o -> snd o = fold_left apply_setter (firstn (S k) l) st.
+Proof.
+  revert st k. induction l as [|c r IH]; intros st k; cbn [run_setters]; [destruct k; discriminate|].
+  destruct k as [|k]; cbn [nth_error].
+  - intros [= <-]. reflexivity.
+  - intros H. apply IH in H. exact H.
+Qed.
 (* after the four setters, in any order, ID() prints the five set values and FieldParams() returns them, whatever the object held before *)
 Theorem ID_after_setters st h x y v z :
   let o := apply_setter (apply_setter (apply_setter (apply_setter st (SZ z)) (SY y)) (SX x)) (SZoom h v) in
@@ -1141,7 +1162,7 @@ Proof.
   - intros (_ & H & _). congruence.
 Qed.
 Definition all_fields_ok (l : list setter) : Prop :=
-  Forall (fun c => match c with SX a | SY a | SZ a => int64_ok a = true | SZoom h v => int64_ok h = true /\ int64_ok v = true | SReset _ => True end) l.
+  Forall (fun c => match c with SX a | SY a | SZ a => int64_ok a = true | SZoom h v => int64_ok h = true /\ int64_ok v = true | SReset _ | SNew _ => True end) l.
 Theorem setters_model_spec l : all_fields_ok l ->
   Forall2 setter_step_spec (run_setters zero_eid l)
           (map (fun o => (fst o, print_eid (snd o), field_params (snd o), field_params (snd o))) (run_setters zero_eid l)).
@@ -1153,7 +1174,83 @@ Proof.
     { unfold fields_ok in *. rewrite !andb_true_iff in Hst. destruct Hst as ((((H1 & H2) & H3) & H4) & H5).
       destruct c; cbn [apply_setter eh ex ey ev ef]; try (now rewrite ?H1, ?H2, ?H3, ?H4, ?H5, ?Hc).
       - destruct Hc as [Ha Hb]. now rewrite Ha, Hb, H2, H3, H5.
-      - destruct (parse_eid s) as [i|] eqn:E; [exact (parse_eid_fields_ok s i E)|]. now rewrite H1, H2, H3, H4, H5. }
+      - destruct (parse_eid s) as [i|] eqn:E; [exact (parse_eid_fields_ok s i E)|]. now rewrite H1, H2, H3, H4, H5.
+      - destruct (parse_eid s) as [i|] eqn:E; [exact (parse_eid_fields_ok s i E)|reflexivity]. }
     constructor; [|now apply IH]. unfold setter_step_spec. cbn [fst snd]. repeat split. now apply parse_print_eid. }
   intros H. apply G; [reflexivity|exact H].
+Qed.
+
+Lemma check_setter_step_sound o obs : check_setter_step o obs = true <-> setter_step_spec o obs.
+Proof.
+  destruct o as [e0 st], obs as [[[e id] fp] acc]. unfold check_setter_step, setter_step_spec. cbn [fst snd].
+  rewrite !andb_true_iff, !Zlist_eqb_spec, Bool.eqb_true_iff.
+  destruct (parse_eid id) as [j|]; [|split; [intros [[[_ H] _] _]; discriminate|intros (_ & H & _); discriminate]].
+  destruct (eid_eqb_spec j st) as [->|N]; split; try tauto.
+  - intros [[[_ H] _] _]. discriminate.
+  - intros (_ & H & _). congruence.
+Qed.
+
+(* ---- two parses never alias. The harness parses the SAME string twice (objects A and B), runs a setter script on A, parses the string a
+        third time (C), and reads all three back. Model: every parse yields a fresh record, so B and C are the parsed record whatever was
+        done to A. (A constructor that hands out a shared or cached pointer makes B or C follow A.) ---- *)
+Definition alias_model (s : string) (l : list setter) : option (eid * eid * eid) :=
+  match parse_eid s with Some i => Some (fold_left apply_setter l i, i, i) | None => None end.
+Definition readback := (string * list Z * list Z)%type.      (* ID(), FieldParams(), the five getters *)
+Definition rd_step (r : readback) : bool * string * list Z * list Z := let '(id, fp, acc) := r in (false, id, fp, acc).
+Definition alias_spec (s : string) (l : list setter) (obs : option (readback * readback * readback)) : Prop :=
+  match alias_model s l, obs with
+  | Some (a, b, c), Some (ra, rb, rc) =>
+      setter_step_spec (false, a) (rd_step ra) /\ setter_step_spec (false, b) (rd_step rb) /\ setter_step_spec (false, c) (rd_step rc)
+  | None, None => True
+  | _, _ => False
+  end.
+Definition check_alias (s : string) (l : list setter) (obs : option (readback * readback * readback)) : bool :=
+  match alias_model s l, obs with
+  | Some (a, b, c), Some (ra, rb, rc) =>
+      check_setter_step (false, a) (rd_step ra) && check_setter_step (false, b) (rd_step rb) && check_setter_step (false, c) (rd_step rc)
+  | None, None => true
+  | _, _ => false
+  end.
+Theorem check_alias_sound s l obs : check_alias s l obs = true <-> alias_spec s l obs.
+Proof.
+  unfold check_alias, alias_spec. destruct (alias_model s l) as [[[a b] c]|], obs as [[[ra rb] rc]|]; try tauto; try (split; [discriminate|tauto]).
+  rewrite !andb_true_iff, !check_setter_step_sound. tauto.
+Qed.
+(* the untouched objects read back the parsed record, for every script run on the first one *)
+Theorem alias_untouched s l i : parse_eid s = Some i -> alias_model s l = Some (fold_left apply_setter l i, i, i).
+Proof. intros H. unfold alias_model. now rewrite H. Qed.
+Definition rb_of (j : eid) : readback := (print_eid j, field_params j, field_params j).
+Theorem alias_model_spec s l : all_fields_ok l ->
+  alias_spec s l (match alias_model s l with Some (a, b, c) => Some (rb_of a, rb_of b, rb_of c) | None => None end).
+Proof.
+  intros Hl. unfold alias_spec, alias_model. destruct (parse_eid s) as [i|] eqn:E; [|exact I].
+  pose proof (parse_eid_fields_ok s i E) as Fi.
+  assert (Fa : forall l st, fields_ok st = true -> all_fields_ok l -> fields_ok (fold_left apply_setter l st) = true).
+  { clear. induction l as [|c r IH]; intros st Hst Hl; [exact Hst|]. inversion Hl as [|? ? Hc Hr]; subst. cbn [fold_left]. apply IH; [|exact Hr].
+    unfold fields_ok in *. rewrite !andb_true_iff in Hst. destruct Hst as ((((H1 & H2) & H3) & H4) & H5).
+    destruct c; cbn [apply_setter eh ex ey ev ef]; try (now rewrite ?H1, ?H2, ?H3, ?H4, ?H5, ?Hc).
+    - destruct Hc as [Ha Hb]. now rewrite Ha, Hb, H2, H3, H5.
+    - destruct (parse_eid s) as [i|] eqn:E; [exact (parse_eid_fields_ok s i E)|]. now rewrite H1, H2, H3, H4, H5.
+    - destruct (parse_eid s) as [i|] eqn:E; [exact (parse_eid_fields_ok s i E)|reflexivity]. }
+  unfold setter_step_spec, rd_step, rb_of; cbn [fst snd]. repeat split; apply parse_print_eid; [now apply Fa|exact Fi|exact Fi].
+Qed.
+
+(* ---- the delimiter. The parser and printer models split and join at Str.slash; the constant the Go code uses is
+        consts.SpatialIDDelimiter, regenerated from /repo on every run as Generated.SpatialIDDelimiter (its bytes) ---- *)
+Definition bytes_to_string (l : list Z) : string := fold_right (fun b r => String (ascii_of_nat (Z.to_nat b)) r) EmptyString l.
+Lemma join_concat l : join l = String.concat (String slash EmptyString) l.
+Proof.
+  induction l as [|a r IH]; [reflexivity|]. destruct r as [|b r']; [reflexivity|].
+  rewrite join_cons, IH. reflexivity.
+Qed.
+Theorem delimiter_is_generated :
+  bytes_to_string Generated.SpatialIDDelimiter = String slash EmptyString /\
+  Generated.SpatialIDDelimiter = [Z.of_nat (nat_of_ascii slash)] /\
+  (forall i, print_eid i = String.concat (bytes_to_string Generated.SpatialIDDelimiter)
+                                        [print (eh i); print (ex i); print (ey i); print (ev i); print (ef i)]) /\
+  (forall l, join l = String.concat (bytes_to_string Generated.SpatialIDDelimiter) l).
+Proof.
+  rewrite gen_SpatialIDDelimiter_eq. split; [reflexivity|]. split; [reflexivity|]. split.
+  - intros i. unfold print_eid. apply join_concat.
+  - apply join_concat.
 Qed.
